@@ -1,6 +1,6 @@
 (* C01 - Superadditive bounds always contain the true game.
    Statements only; proofs live in theories/SASound.v and theories/SAEquiv.v. *)
-From ICG Require Import Prelude Bits Table Bounds FoldLemmas BoundsSpec SASound SAEquiv Checks.
+From ICG Require Import Prelude Bits Table Bounds GameOps FoldLemmas BoundsSpec SASound SAEquiv Checks HistorySound.
 
 (* For either superadditive computer, any player count, any knowledge K containing the minimal information,
    any superadditive hidden game v, and ANY table t holding that knowledge (unknown rows arbitrary, i.e. whatever
@@ -21,6 +21,22 @@ Theorem C01_sa_defined :
     (c = CRef \/ c = CCached) -> MinK n K -> agrees n t K v -> exists t', compute c n t = Some t'.
 Proof. exact sa_defined. Qed.
 Print Assumptions C01_sa_defined.
+
+(* The same over operation HISTORIES, with the quantifier explicit: after any sequence of public operations on a fresh game
+   object (set / unset / reveal / un-reveal / bulk set / bulk reset / bulk bound set / recompute with any computer, in any
+   order and number) whose value-carrying operations carry true values of v, if the resulting knowledge contains the minimal
+   information then computing the bounds gives sound intervals for the knowledge the object then has. *)
+Theorem C01_sa_sound_history :
+  forall (c : computer) n v ops t',
+    (c = CRef \/ c = CCached) -> SA n v -> v 0%N == 0 ->
+    forallb public_op ops = true -> Forall (truthful n v) ops ->
+    MinK n (Kn (run n ops init_table)) -> compute c n (run n ops init_table) = Some t' ->
+    forall s, bounded n s ->
+      L t' s <= v s /\ v s <= U t' s /\ L t' s <= U t' s /\ Kn t' s = Kn (run n ops init_table) s
+      /\ (Kn (run n ops init_table) s = true ->
+           get t' s = get (run n ops init_table) s /\ L t' s == v s /\ U t' s == v s).
+Proof. exact sa_sound_history. Qed.
+Print Assumptions C01_sa_sound_history.
 
 (* Non-vacuity: a non-additive superadditive 3-player game with negative and non-zero singletons,
    K = minimal information + {0,1}, stale rows holding 77 / -77: the hypotheses hold and an interval is non-degenerate. *)
